@@ -58,7 +58,7 @@ func c40WriteAhead(r *vkit.Run, idx int, start bool) {
 		ids = append(ids, i)
 	}
 	sort.Ints(ids)
-	r.WriteAhead(map[string]interface{}{"inflight_case_indices": ids, "note": "regenerate with genCase(seed, idx)"})
+	r.WriteAhead(map[string]interface{}{"inflight_case_indices": ids, "note": "regenerate with genCase(seed, idx); idx >= the tier's case count: genStaged(seed, idx-count, idx)"})
 	inflightMu.Unlock()
 }
 
@@ -83,16 +83,18 @@ func c40Report(r *vkit.Run, spec *caseSpec, res *caseResult) {
 
 func c40(r *vkit.Run) {
 	r.SetRule("one case = one SPDY/3.1 connection (net.Pipe, 1 in 5 loopback TCP) served by bfe_spdy's handleConn+serve; a scripted client " +
-		"(spdycli) plays a seeded script of five kinds: respecting uploads to gated handlers with DATA exactly at / one over / far over the " +
+		"(spdycli) plays a seeded script of six kinds: respecting uploads to gated handlers with DATA exactly at / one over / far over the " +
 		"advertised windows; uploads whose handlers discard the body; downloads (handlers write 0..1MB in random chunks) with drip-fed " +
 		"WINDOW_UPDATEs, SETTINGS initial-window shrink/growth, resets and window overflows; one targeted stream-rule break on a clean " +
 		"connection (SYN_STREAM id 0/even/decreasing/reused, DATA on never-opened/half-closed/reset/finished streams and stream 0, late " +
-		"HEADERS/SYN_REPLY, WINDOW_UPDATE overflow); random frame sequences over stream ids 0..9. The client model (written from the " +
+		"HEADERS/SYN_REPLY, WINDOW_UPDATE overflow); random frame sequences over stream ids 0..9; and, after the seeded mix and one connection at a time, " +
+		"case-count/20+1 staged connections of 6..20 uploads each reset (client RST_STREAM, or one byte beyond Content-Length) right behind the gate that lets " +
+		"its handler start reading the buffered body in 1..100-byte pieces. The client model (written from the " +
 		"SPDY/3.1 draft) classifies each sent frame as must-reject / certainly-accepted / either-way using timing-independent bounds " +
 		"(handlers only progress through gates the script opens); only must-reject frames create obligations (RST_STREAM/GOAWAY/close " +
 		"before the next answered PING, never delivered to a handler), received DATA is checked against the client's own windows and the " +
-		"handler's byte stream, WINDOW_UPDATE sums against consumed bytes at stream FIN and at quiescence, the server's final session " +
-		"windows (verif accessor) against the client's account; serve-goroutine panics, stuck handlers and a goroutine census are checked " +
+		"handler's byte stream, WINDOW_UPDATE sums against consumed bytes at stream FIN and at quiescence and against bytes sent whenever one arrives, the server's final session " +
+		"windows (verif accessor) against the client's account and its receive window against the initial 65536 (credits never exceed received DATA); serve-goroutine panics, stuck handlers and a goroutine census are checked " +
 		"too. Non-trivial = at least one must-reject/certain/conservation/outbound-window check was evaluated; distinct = canonical JSON of (kind, transport, handler scripts, ops)")
 	r.Assume("the client uses bfe_spdy's exported Framer as codec (frame parsing, zlib header blocks); the framer itself is property C39")
 	r.Assume("server side entered through the verif accessor VerifServeConn (handleConn+serve on a plain net.Conn, no TLS)")
@@ -121,8 +123,7 @@ func c40(r *vkit.Run) {
 	if v := os.Getenv("VSPDY_N"); v != "" { // monitor self-tests (mutants) only: a prefix of the tier's case list
 		fmt.Sscan(v, &n)
 	}
-	vkit.Parallel(n, 2*runtime.NumCPU(), func(i int) {
-		spec := genCase(r, i)
+	one := func(i int, spec *caseSpec) {
 		c40WriteAhead(r, i, true)
 		res := runCase(spec)
 		c40WriteAhead(r, i, false)
@@ -133,9 +134,16 @@ func c40(r *vkit.Run) {
 			}
 			inflightMu.Unlock()
 		}
-
 		c40Report(r, spec, res)
-	})
+	}
+	vkit.Parallel(n, 2*runtime.NumCPU(), func(i int) { one(i, genCase(r, i)) })
+	// Staged cases after the seeded mix: streams reset under a reading handler
+	// (genResetReading). One connection at a time: with idle processors the
+	// handler goroutine and the serve goroutine of the connection really run
+	// side by side, which is what these cases are about (with every processor
+	// busy a handler released by the serve loop only runs once that loop parks).
+	staged := n/20 + 1
+	vkit.Parallel(staged, 1, func(i int) { one(n+i, genStaged(r, i, n+i)) })
 	if len(inconclCases) > 0 {
 		r.Extra("inconclusive_cases", inconclCases)
 	}
@@ -148,14 +156,14 @@ func c40(r *vkit.Run) {
 		"syn_invalid_zero", "syn_invalid_even", "syn_invalid_decreasing", "syn_invalid_reused", "syn_valid",
 		"wu_overflow_stream", "wu_overflow_session",
 		"stream_conservation_checked", "session_conservation_checked", "send_window_accounting_checked", "stall_check_evaluated",
-		"cases_with_outbound_data", "client_rst_acked_streams", "responses_complete", "handlers_invoked",
+		"cases_with_outbound_data", "client_rst_acked_streams", "responses_complete", "handlers_invoked", "reset_while_handler_reading",
 	} {
 		if r.Counter(k) == 0 {
 			r.Inconclusive("the workload never reached outcome " + k)
 		}
 	}
-	if inc := r.Counter("cases_inconclusive"); inc*50 > int64(n) {
-		r.Inconclusive(fmt.Sprintf("%d of %d cases hit a harness time limit", inc, n))
+	if inc := r.Counter("cases_inconclusive"); inc*50 > int64(n+staged) {
+		r.Inconclusive(fmt.Sprintf("%d of %d cases hit a harness time limit", inc, n+staged))
 	}
 }
 
